@@ -5925,7 +5925,8 @@ class FlowIRConcrete(object):
         platform = platform or self._platform
 
         need_fully_resolved_flowir = (raw is False and inject_missing_fields
-                                      and include_default and is_primitive is False)
+                                      and include_default and is_primitive is False
+                                      and ignore_convert_errors is False)
         try:
             cache_label = 'component:%s:stage%s:%s' % (platform, comp_id[0], comp_id[1])
         except Exception as e:
